@@ -274,6 +274,15 @@ KERNELS = [
          loc=("assign", "l2"), typ="Nat", subst={"current_time": "t"},
          params="(t : Nat)", obl="(t : Nat)", call="t", model="Time.l2 t", imports=["Model.Time"],
          unfold=["Time.l2", "Time.base"]),
+    # _asn1._pack_asn1: short/long-form threshold and the high-tag-number threshold
+    dict(name="TlvShortForm", props=["C07", "C06"], file="_asn1.py", func="_pack_asn1", kind="prop",
+         loc=("if_containing", "length"), typ="Nat", subst={"length": "n"},
+         params="(n : Nat)", obl="(n : Nat)", call="n", model="(Asn1.lengthOctets n = [n])", imports=["Model.Asn1", "Proofs.Kernels"],
+         unfold=[], tactic="exact (Kernels.shortForm_iff n).symm"),
+    dict(name="TlvLowTag", props=["C07", "C06"], file="_asn1.py", func="_pack_asn1", kind="prop",
+         loc=("if_containing", "tag_number"), typ="Nat", subst={"tag_number": "n"},
+         params="(n : Nat)", obl="(n : Nat)", call="n", model="(n < 31)", imports=["Model.Asn1"],
+         unfold=[]),
 ]
 
 
@@ -331,7 +340,7 @@ def {name} {k['params']} : {rettype} := {body}
 
 theorem {name}_eq {k['obl']} {prem}: {name} {k['call']} {rel} {model} := by
   unfold {name} {unfold}
-  kernel_tac
+  {k.get('tactic', 'kernel_tac')}
 
 end DpapiNg.Gen
 """
